@@ -1,7 +1,7 @@
 """Shared pieces for the UTF checks (C11, C12, C13): encodings, CPython-codec oracle, text generators."""
 import random
 
-from vlib import build
+from vlib import build, core
 
 ENC_PY = {'utf8': 'utf-8', 'utf16le': 'utf-16-le', 'utf16be': 'utf-16-be', 'utf32le': 'utf-32-le', 'utf32be': 'utf-32-be',
           'utf16': 'utf-16-le', 'utf32': 'utf-32-le'}
@@ -157,3 +157,19 @@ def judge_throw(src, enc_from, out, enc_to, ec, it, threw=False):
     if out != want:
         return 'output before the error differs from the well-formed prefix'
     return None
+
+
+def run_stage(ck, exe, lines, variant, stage):
+    """Runs driver lines; a sanitizer report / crash on any line is a violation (not a harness failure); returns the events."""
+    by_id, crashes = core.run_cases(exe, lines, variant)
+    for ln, key, err, rc in crashes:
+        ck.violation('sanitizer/%s/%s' % (stage, key), {'driver': 'drv_utf', 'variant': variant, 'case': ln[:100000], 'stderr': err[-2000:]}, 'process died in stage %s: %s' % (stage, key))
+    if len(by_id) + len(crashes) != len(lines):
+        ck.harness_error('stage %s lost cases: %d of %d' % (stage, len(by_id) + len(crashes), len(lines)))
+    out = []
+    for e in by_id.values():
+        if 'error' in e and 'id' in e and len(e) <= 3:
+            ck.harness_error('driver error in stage %s: %s' % (stage, e['error']))
+        else:
+            out.append(e)
+    return out
